@@ -524,3 +524,91 @@ Theorem add_xobject_resources_partial d page nm x d' r :
 Proof.
   intro H. apply add_resource_resources; try (intro H0; discriminate H0). intros _. exact H.
 Qed.
+
+(* ---------- frames of the resource operations: at most two objects change, nothing is added or removed ---------- *)
+Definition touches_at_most (m m' : objmap) (t1 t2 : oid) : Prop :=
+  map fst m' = map fst m /\ forall y, y <> t1 -> y <> t2 -> lookup m' y = lookup m y.
+
+Lemma touches_refl m t1 t2 : touches_at_most m m t1 t2.
+Proof. split; reflexivity. Qed.
+
+Lemma touches_update m m1 t1 t2 o : touches_at_most m m1 t1 t2 -> touches_at_most m (update m1 t1 o) t1 t2.
+Proof.
+  intros [K L]. split; [rewrite keys_update; exact K|]. intros y H1 H2. rewrite lookup_update.
+  replace (oid_eqb t1 y) with false; [apply L; assumption|]. symmetry. apply oid_eqb_neq. congruence.
+Qed.
+
+Lemma touches_update2 m m1 t1 t2 o : touches_at_most m m1 t1 t2 -> touches_at_most m (update m1 t2 o) t1 t2.
+Proof.
+  intros [K L]. split; [rewrite keys_update; exact K|]. intros y H1 H2. rewrite lookup_update.
+  replace (oid_eqb t2 y) with false; [apply L; assumption|]. symmetry. apply oid_eqb_neq. congruence.
+Qed.
+
+Definition loc_id (l : res_loc) : oid := match l with RLObj t => t | RLEntry t => t end.
+
+Lemma touches_loc_set m m1 l t2 o : touches_at_most m m1 (loc_id l) t2 -> touches_at_most m (loc_set m1 l o) (loc_id l) t2.
+Proof.
+  intro H. destruct l as [t|t]; cbn [loc_set loc_id] in *; [apply touches_update; exact H|].
+  destruct (lookup m1 t) as [[| | | | | | |td| |]|]; try exact H. apply touches_update. exact H.
+Qed.
+
+Lemma gocr_frame d page d' loc :
+  get_or_create_resources d page = (d', loc) ->
+  d_trailer d' = d_trailer d /\ d_max_id d' = d_max_id d /\
+  forall t2, match loc with
+             | Some l => touches_at_most (d_objects d) (d_objects d') (loc_id l) t2
+             | None => d_objects d' = d_objects d
+             end.
+Proof.
+  unfold get_or_create_resources.
+  assert (Nop : (d, @None res_loc) = (d', loc) ->
+            d_trailer d' = d_trailer d /\ d_max_id d' = d_max_id d /\
+            forall t2 : oid, match loc with
+                             | Some l => touches_at_most (d_objects d) (d_objects d') (loc_id l) t2
+                             | None => d_objects d' = d_objects d
+                             end).
+  { intro H. injection H as <- <-. auto. }
+  destruct (get_object (d_objects d) page) as [[| | | | | | |pd| |]|]; try exact Nop.
+  destruct (if dict_has pd K_Resources then as_ref (dict_get pd K_Resources) else None) as [rid|].
+  - intro H. injection H as <- <-. split; [reflexivity|]. split; [reflexivity|]. intro t2.
+    destruct (get_object_mut_id (d_objects d) rid); cbn [option_map]; [apply touches_refl | reflexivity].
+  - destruct (get_object_mut_id (d_objects d) page) as [t|]; [|exact Nop].
+    destruct (lookup (d_objects d) t) as [[| | | | | | |td| |]|]; try exact Nop.
+    intro H. injection H as <- <-. split; [reflexivity|]. split; [reflexivity|]. intro t2. cbn [loc_id d_objects with_objs].
+    apply touches_update. apply touches_refl.
+Qed.
+
+Theorem add_resource_frame follow key d page nm x d' r :
+  add_resource follow key d page nm x = (d', r) ->
+  d_trailer d' = d_trailer d /\ d_max_id d' = d_max_id d /\
+  exists t1 t2, touches_at_most (d_objects d) (d_objects d') t1 t2.
+Proof.
+  unfold add_resource. destruct (get_or_create_resources d page) as [d1 loc] eqn:Eg.
+  destruct (gocr_frame d page d1 loc Eg) as [T1 [M1 F1]].
+  destruct loc as [loc|].
+  2:{ intro H; injection H as <- _. split; [exact T1|]. split; [exact M1|]. exists page, page. rewrite (F1 page). apply touches_refl. }
+  assert (Base : forall (t2 : oid) (r0 : out), (d1, r0) = (d', r) ->
+            d_trailer d' = d_trailer d /\ d_max_id d' = d_max_id d /\ exists t1 t2, touches_at_most (d_objects d) (d_objects d') t1 t2).
+  { intros t2 r0 H. injection H as <- _. split; [exact T1|]. split; [exact M1|]. exists (loc_id loc), t2. apply F1. }
+  destruct (loc_get (d_objects d1) loc) as [[| | | | | | |rd| |]|];
+    [apply (Base page) | apply (Base page) | apply (Base page) | apply (Base page) | apply (Base page) | apply (Base page)
+     | apply (Base page) | | apply (Base page) | apply (Base page) | apply (Base page)].
+  set (rd1 := if dict_has rd key then rd else dict_set rd key (ODict [])).
+  assert (Two : forall (t2 : oid) (m3 : objmap) (r0 : out), touches_at_most (d_objects d) m3 (loc_id loc) t2 -> (with_objs d1 m3, r0) = (d', r) ->
+            d_trailer d' = d_trailer d /\ d_max_id d' = d_max_id d /\ exists t1 t2, touches_at_most (d_objects d) (d_objects d') t1 t2).
+  { intros t2 m3 r0 Ht H. injection H as <- _. split; [exact T1|]. split; [exact M1|]. exists (loc_id loc), t2. exact Ht. }
+  pose proof (fun t2 => touches_loc_set (d_objects d) (d_objects d1) loc t2 (ODict rd1) (F1 t2)) as F2.
+  destruct (dict_get rd1 key) as [[| | | | | | |xd| |i g]|];
+    [apply (Two page _ _ (F2 page)) | apply (Two page _ _ (F2 page)) | apply (Two page _ _ (F2 page)) | apply (Two page _ _ (F2 page))
+     | apply (Two page _ _ (F2 page)) | apply (Two page _ _ (F2 page)) | apply (Two page _ _ (F2 page)) |
+     | apply (Two page _ _ (F2 page)) | | apply (Two page _ _ (F2 page))].
+  - apply (Two page). apply touches_loc_set. apply F2.
+  - destruct follow; [|apply (Two page _ _ (F2 page))].
+    destruct (get_object _ (i, g)); [|apply (Two page _ _ (F2 page))].
+    destruct (get_object_mut_id _ (i, g)) as [t|]; [|apply (Two page _ _ (F2 page))].
+    destruct (lookup _ t) as [[| | | | | | |xd| |]|];
+      [apply (Two page _ _ (F2 page)) | apply (Two page _ _ (F2 page)) | apply (Two page _ _ (F2 page)) | apply (Two page _ _ (F2 page))
+       | apply (Two page _ _ (F2 page)) | apply (Two page _ _ (F2 page)) | apply (Two page _ _ (F2 page)) |
+       | apply (Two page _ _ (F2 page)) | apply (Two page _ _ (F2 page)) | apply (Two page _ _ (F2 page))].
+    apply (Two t). apply touches_update2. apply F2.
+Qed.
